@@ -180,19 +180,21 @@ func learnNilness(succ *ssa.BasicBlock, pred *ssa.BasicBlock, table nilnessTable
 		return lTable, false
 	}
 
-	// Only one operand is known of nilness.
+	// Only one operand is known of nilness. On the `==` edge the unknown operand has the nilness of
+	// the known one. On the `!=` edge we can only learn from a known _nil_ operand (the other one
+	// is then non-nil): being different from a non-nil value does not make a value nil.
 	if ynil == unknown {
 		// learn the nilness of Y
 		if succ == eqSucc {
 			lTable.expandNilness(binOp.Y, xnil)
-		} else {
+		} else if xnil == isnil {
 			lTable.expandNilness(binOp.Y, xnil.negate())
 		}
 	} else {
 		// learn the nilness of X
 		if succ == eqSucc {
 			lTable.expandNilness(binOp.X, ynil)
-		} else {
+		} else if ynil == isnil {
 			lTable.expandNilness(binOp.X, ynil.negate())
 		}
 	}
